@@ -9,6 +9,10 @@
                                      -> (ok x<bytes> P) | (panic P)   M_emit4, P = path_ok from 0
      dec4 MAC x<bytes>               -> err | panic | (ok (k g) ...)
      look4 x<bytes> (c ...)          -> ((some g) | none ...)          S_lookup4
+     tdec x<bytes>                   -> err | panic | (ok (pid eid lang off len) ...)   M_decode_table
+     tenc ((pid eid lang x<bytes>) ...) -> (ok x<bytes>) | panic       M_encode_table
+     best x<bytes>                   -> err | panic | none | (best i)  M_decode_table_bytes + M_getbest
+     install HIGH                    -> ((pid eid lang) ...)           M_installcmap_keys
 *)
 let sx_pairs (x : sx) : (n * n) list =
   List.map (fun p -> match p with L [k; g] -> (sx_n k, sx_n g) | _ -> failwith "bad pair") (lst x)
@@ -69,4 +73,25 @@ let () = main_loop (fun c ->
   | [A "look4"; data; cs] ->
     let d = sx_bytes data in
     L (List.map (fun c -> match s_lookup4 d (sx_n c) with Some g -> L [A "some"; an g] | None -> A "none") (lst cs))
+  | [A "tdec"; data] ->
+    outcome_sx (fun t -> L (A "ok" :: List.map (fun (((p, e), l), (o, n)) -> L [an p; an e; an l; an o; an n]) t))
+      (m_decode_table (sx_bytes data))
+  | [A "tenc"; t] ->
+    let t = List.map (fun x -> match x with
+      | L [p; e; l; d] -> (((sx_n p, sx_n e), sx_n l), sx_bytes d)
+      | _ -> failwith "bad table entry") (lst t) in
+    outcome_sx (fun b -> L [A "ok"; A (hex_of_bytes b)]) (m_encode_table t)
+  | [A "best"; data] ->
+    (match m_decode_table_bytes (sx_bytes data) with
+     | Ok t ->
+       (match m_getbest ident t with
+        | Ok (i, _) -> L [A "best"; an i]
+        | Err -> A "none"
+        | Panic -> A "panic"
+        | OutOfFuel -> A "fuel")
+     | Err -> A "err"
+     | Panic -> A "panic"
+     | OutOfFuel -> A "fuel")
+  | [A "install"; high] ->
+    L (List.map (fun ((p, e), l) -> L [an p; an e; an l]) (m_installcmap_keys (sx_z high)))
   | _ -> failwith "bad case")
